@@ -86,6 +86,10 @@ type Scenario struct {
 	Custom func(env Env) *Report
 	// ReplayCustom re-runs one recorded custom case; returns the failures seen.
 	ReplayCustom func(input json.RawMessage) []Failure
+	// Race is a free-running body (real goroutines, real primitives) executed repeatedly in a binary built
+	// with the race detector: the assumption check that all inter-thread communication of the explored
+	// code goes through instrumented operations.
+	Race func()
 	// Child runs one case inside an isolated child process (cases that may kill the process:
 	// stack overflow, memory exhaustion); it returns "" or a failure signature.
 	Child func(input json.RawMessage) string
@@ -234,6 +238,20 @@ func Main(t *testing.T) {
 		}
 		var rep *Report
 		watchScenario.Store(name)
+		if s.Race != nil {
+			runs := 200
+			fmt.Sscan(os.Getenv("VERIF_RACE_RUNS"), &runs)
+			runtime.GOMAXPROCS(8)
+			rep = &Report{Scenario: name, Outcomes: map[string]int64{}, Complete: true}
+			for i := 0; i < runs; i++ {
+				Progress(nil)
+				s.Race()
+				rep.Execs++
+			}
+			rep.States, rep.Transitions, rep.Distinct = rep.Execs, rep.Execs, rep.Execs
+			out.Reports = append(out.Reports, rep)
+			continue
+		}
 		if s.Custom != nil {
 			start := time.Now()
 			rep = s.Custom(env)
